@@ -6,6 +6,7 @@ import (
 	"fmt"
 	"math"
 	"math/big"
+	"regexp"
 	"strings"
 	"testing"
 	"time"
@@ -18,6 +19,8 @@ import (
 	"verifharness/chain"
 	"verifharness/ev"
 )
+
+var plainName = regexp.MustCompile(`^[A-Za-z0-9_-]+\.(jkl|ibc)$`)
 
 type c16Step struct {
 	Acc     int
@@ -115,6 +118,12 @@ func c16Exec(w *rnsWorld, s c16Step) c16Out {
 	}
 	if r, err := w.c.App.RnsKeeper.Resolve(w.f.Ctx, key); err != nil || r.String() != acc.Bech {
 		return c16Out{sig: "C16/does-not-resolve", msg: fmt.Sprintf("Resolve(%s) = %v, %v", key, r, err)}
+	}
+	// ... and under the spelling the registrant typed, where that is a plain "Label.tld" (letters in either case)
+	if plainName.MatchString(s.Name) {
+		if r, err := w.c.App.RnsKeeper.Resolve(w.f.Ctx, s.Name); err != nil || r.String() != acc.Bech {
+			return c16Out{sig: "C16/does-not-resolve", msg: fmt.Sprintf("registered as %q, Resolve(%q) = %v, %v", s.Name, s.Name, r, err)}
+		}
 	}
 	term := new(big.Int).Mul(big.NewInt(s.Years), big.NewInt(rnsYearBlocks))
 	exp := big.NewInt(after.Expires)
